@@ -107,9 +107,30 @@ theorem generate_of_pair (prod : Dbl) (scale : Int) (ls : Nat)
     generateExpTable prod = .ok (SoftmaxRef.expTable scale ls) := by
   unfold generateExpTable
   rw [hq]
+  have hr : renormalise (scale, 31 - (ls : Int)) = (scale, 31 - (ls : Int)) := by
+    unfold renormalise
+    have hne : (scale == 2147483648) = false := by
+      rw [beq_eq_false_iff_ne]; omega
+    simp only [hne, Bool.false_eq_true, if_false]
   have e : (31 : Int) - (31 - (ls : Int)) = ls := by omega
-  simp only [e]
+  simp only [hr, e]
   exact tableFrom_ok scale ls hs1 hs2
+
+/-- the multiplier `2^31` is renormalised to `(2^30, shift − 1)` (commit 20248de) and then yields the table of the
+    halved multiplier with one more left shift -/
+theorem generate_of_pair_m31 (prod : Dbl) (ls : Nat)
+    (hq : quantiseScale (pyMin prod maxRealMultiplier) = .ok (2147483648, 31 - (ls : Int))) :
+    generateExpTable prod = .ok (SoftmaxRef.expTable 1073741824 (ls + 1)) := by
+  unfold generateExpTable
+  rw [hq]
+  have hr : renormalise (2147483648, 31 - (ls : Int)) = (1073741824, 31 - (ls : Int) - 1) := by
+    unfold renormalise
+    have h1 : ((2147483648 : Int) == 2147483648) = true := by decide
+    have h2 : (2147483648 : Int) >>> 1 = 1073741824 := by decide
+    simp only [h1, if_true, h2]
+  have e : (31 : Int) - (31 - (ls : Int) - 1) = ((ls + 1 : Nat) : Int) := by omega
+  simp only [hr, e]
+  exact tableFrom_ok 1073741824 (ls + 1) (by decide) (by decide)
 
 
 /-! ### `min(prod, 2^31 − 1)` and `quantise_scale` against `std::min` and `QuantizeMultiplierGreaterThanOne` -/
@@ -432,7 +453,8 @@ theorem entry_mono (mult : Int) (ls : Nat) (hm1 : 0 ≤ mult) (hm2 : mult ≤ 21
     simp only [hgy, hgx, if_false]
     exact Int.le_refl 0
 
-/-! ### the unnormalised multiplier `2^31` is rejected by the assert of `saturating_rounding_mul32` -/
+/-! ### the unnormalised multiplier `2^31` is rejected by the assert of `saturating_rounding_mul32`
+(what happened before the renormalisation of commit 20248de; used by the `generateExpTableOld` witness only) -/
 
 theorem mapM_err {α β : Type} (f : α → Except Err β) (E : Err) (l : List α)
     (h : ∀ x ∈ l, f x = .error E ∨ ∃ v, f x = .ok v) (hex : ∃ x ∈ l, f x = .error E) : l.mapM f = .error E := by
@@ -481,10 +503,12 @@ theorem tableFrom_m31 (ls : Nat) : tableFrom 2147483648 (ls : Int) = .error (.fp
 
 
 /-- the regular branch when the multiplier *does* round up to `2^31`: `quantise_scale` keeps `2^31`,
-    TFLite renormalises to `(2^30, shift + 1)` -/
+    TFLite renormalises to `(2^30, shift + 1)` (and so does `generate_exp_table` since commit 20248de:
+    `generate_carry` below) -/
 theorem unclamped_carry (q : Nat) (k : Int) (h1 : 2 ^ 52 ≤ q) (h2 : q < 2 ^ 53)
     (hk : 0 < k - 26) (hle : q ≤ (2 ^ 31 - 1) * 2 ^ (k - 26).toNat) (hgt : q > 2 ^ (k - 26).toNat)
     (hcarry : (q + 2 ^ 21) / 2 ^ 22 = 2 ^ 31) :
+    (48 ≤ k ∧ k ≤ 78) ∧
     quantiseScale (pyMin (.fin false q (26 - k)) maxRealMultiplier) =
       .ok (2147483648, 31 - (((79 - k).toNat : Nat) : Int)) ∧
     SoftmaxRef.quantizeMultiplierGreaterThanOne (SoftmaxRef.scaledClamped q k).1 (SoftmaxRef.scaledClamped q k).2 =
@@ -501,7 +525,7 @@ theorem unclamped_carry (q : Nat) (k : Int) (h1 : 2 ^ 52 ≤ q) (h2 : q < 2 ^ 53
     have h4 : (2:Nat) ^ j < 2 ^ 53 := by omega
     have := (Nat.pow_lt_pow_iff_right (by decide : 1 < 2)).1 h4
     omega
-  refine ⟨?_, ?_⟩
+  refine ⟨by omega, ?_, ?_⟩
   · have hnlt : Dbl.lt maxRealMultiplier (.fin false q (26 - k)) = false := by
       unfold maxRealMultiplier
       show magLt 2147483647 0 q (26 - k) = false
@@ -536,5 +560,15 @@ theorem unclamped_carry (q : Nat) (k : Int) (h1 : 2 ^ 52 ≤ q) (h2 : q < 2 ^ 53
     simp only [hs2, if_false]
     congr 2
     omega
+
+/-- the carry case end to end: the repaired `generate_exp_table` yields the table of the reference's renormalised pair -/
+theorem generate_carry (q : Nat) (k : Int) (h1 : 2 ^ 52 ≤ q) (h2 : q < 2 ^ 53)
+    (hk : 0 < k - 26) (hle : q ≤ (2 ^ 31 - 1) * 2 ^ (k - 26).toNat) (hgt : q > 2 ^ (k - 26).toNat)
+    (hcarry : (q + 2 ^ 21) / 2 ^ 22 = 2 ^ 31) :
+    generateExpTable (.fin false q (26 - k)) = .ok (SoftmaxRef.expTable 1073741824 (80 - k).toNat) := by
+  obtain ⟨hkb, hq, _⟩ := unclamped_carry q k h1 h2 hk hle hgt hcarry
+  have e : (80 - k).toNat = (79 - k).toNat + 1 := by omega
+  rw [e]
+  exact generate_of_pair_m31 _ _ hq
 
 end VelaVerif.SoftmaxTable
